@@ -8,6 +8,7 @@ import random
 import coqrun
 import gens
 import mcase
+import lcase
 import qcase
 from gens import CHILD, derive_path, rand_doc, small_scope, SMALL_STEPS_CHILD, SMALL_STEPS_FULL, SMALL_DOCS
 from terms import otree_diff, otree_to_json
@@ -30,6 +31,7 @@ COMMON_ASSUMPTIONS = [
 FAMILIES = {
     'q': dict(printer=qcase.g_qcase, run_fn="(run_qcase BUDGET)", case_type="qcase", imports=""),
     'm': dict(printer=mcase.g_mcase, run_fn="(run_mcase BUDGET)", case_type="mcase", imports=" Mutate RunM"),
+    'l': dict(printer=lcase.g_lcase, run_fn="run_lcase", case_type="lcase", imports=" DocList RunL"),
 }
 
 
@@ -832,6 +834,23 @@ REGISTRY = {
 }
 
 
+def gen_C19(rng, tier):
+    return [{'family': 'l', 'case': lcase.gen_lcase(rng)} for _ in range(sized(tier, 2500, 30000))]
+
+
+def nontrivial_C19(case, o):
+    ks = [op[0] for op in case['case']['ops']]
+    return len(case['case']['items']) >= 2 and any(k in ('keep', 'remove') for k in ks)
+
+
+REGISTRY['C19'] = dict(level='proof', gen=gen_C19, nontrivial=nontrivial_C19,
+                       rule="histories of 1-12 view operations (len, get/set/del with indices in -n-2..n+2, in, append, pop, iter, "
+                            "keep_all/remove_all with predicates keeping none/some/all, equal-but-distinct elements 1/True/1.0) through "
+                            "a held view or a freshly read one, custom converters or Document-typed elements; the document's list is "
+                            "checked by identity label after each step; non-trivial = >= 2 initial elements and a keep_all/remove_all",
+                       obligations=[])
+
+
 def leaks_C14(o):
     # m.data = v on a list index that disappeared raises IndexError (outside the property's statement, DESIGN 7.4)
     return [e for e in leaks(o) if 'IndexError' not in e and 'AttributeError' not in e and 'TypeError' not in e]
@@ -1020,7 +1039,6 @@ def replay(prop, path):
 NOT_BUILT = {
     'C15': "builder model and check not built yet (work in progress, DESIGN.md 6/C15)",
     'C18': "descriptor model and check not built yet (work in progress, DESIGN.md 6/C18)",
-    'C19': "DocumentList model and check not built yet (work in progress, DESIGN.md 6/C19)",
 }
 for _pid, _spec in REGISTRY.items():
     _spec['level'] = 'proof' if _spec.get('obligations') else 'exploration'
